@@ -24,6 +24,16 @@ fn f2(a: u32, b: u32, c: u32) -> f32 {
     ((a.wrapping_add(b).wrapping_add(c)) % 100_003) as f32 * 0.5
 }
 
+thread_local! {
+    /// Steps (process_sync / process_sync_tags invocations) made on this thread
+    /// since the counter was last taken: "processes exactly min(...) steps per
+    /// call" is about what the generated work() *runs*, not only what it commits.
+    static STEPS: std::cell::Cell<u64> = const { std::cell::Cell::new(0) };
+}
+fn step() {
+    STEPS.with(|s| s.set(s.get() + 1));
+}
+
 macro_rules! sync_block {
     ($name:ident, [$($in:ident),+], [$($out:ident : $oty:ty),+], |$($arg:ident),+| $body:expr) => {
         #[derive(rustradio_macros::Block)]
@@ -40,6 +50,7 @@ macro_rules! sync_block {
         impl $name {
             fn process_sync(&mut self, $($arg: u32),+) -> ($($oty),+) {
                 self.calls += 1;
+                step();
                 let _ = (&self.label, self.bias);
                 $body
             }
@@ -75,6 +86,7 @@ pub struct T22 {
 impl T22 {
     fn process_sync_tags<'a>(&mut self, a: u32, at: &'a [Tag], b: u32, _bt: &'a [Tag]) -> (u32, u8, Cow<'a, [Tag]>) {
         self.seen += 1;
+        step();
         let tags = if a % 97 == 0 {
             let mut t = at.to_vec();
             t.push(Tag::new(0, "mark", TagValue::U64(a as u64)));
@@ -95,6 +107,7 @@ pub struct T11 {
 }
 impl T11 {
     fn process_sync_tags<'a>(&mut self, a: u32, at: &'a [Tag]) -> (u32, Cow<'a, [Tag]>) {
+        step();
         (f0(a, 0, 0), Cow::Borrowed(at))
     }
 }
@@ -234,6 +247,7 @@ fn run_arity(a: &Arity, seed: u64, rep: &mut Report) -> Vec<(String, String)> {
     {
         let mut on_call = |r: &mut Runner, c: &Call, _rng: &mut Rng| {
             rep.count("work_calls_checked", 1);
+            let ran = STEPS.with(|s| s.take());
             if call_findings.len() > 3 || c.verdict == Verdict::Panic {
                 return;
             }
@@ -242,6 +256,11 @@ fn run_arity(a: &Arity, seed: u64, rep: &mut Report) -> Vec<(String, String)> {
             let steps = std::cmp::min(min_in, min_out);
             let sit = format!("{}|in{:?}|out{:?}", a.name, c.offered_in.iter().map(|&x| (x == 0, x == min_in)).collect::<Vec<_>>(), c.offered_out.iter().map(|&x| (x == 0, x == min_out)).collect::<Vec<_>>());
             rep.distinct(fnv_str(&sit));
+            rep.count("process_steps_counted", ran);
+            if ran != steps as u64 {
+                call_findings.push(("steps-run-per-call".into(), format!("the generated work() ran the per-sample function {ran} times in a call where min(shortest input {min_in}, smallest output space {min_out}) = {steps}; offered in {:?} out {:?}", c.offered_in, c.offered_out)));
+                return;
+            }
             for i in 0..nin {
                 if c.moved_in[i] != steps {
                     call_findings.push(("steps-per-call".into(), format!("input {i} consumed {} but min(shortest input {min_in}, smallest output space {min_out}) = {steps}; offered in {:?} out {:?}", c.moved_in[i], c.offered_in, c.offered_out)));
@@ -273,6 +292,7 @@ fn run_arity(a: &Arity, seed: u64, rep: &mut Report) -> Vec<(String, String)> {
             }
             let _ = r;
         };
+        STEPS.with(|s| s.set(0));
         run_schedule(&mut r, &mut rng, &mut on_call, &mut |_| {}, &mut steps);
     }
     out.extend(call_findings);
